@@ -398,3 +398,8 @@ pub fn case_string_local_f() -> usize { let a: Option<i64> = Some(3); let n: Opt
 pub fn case_string_local_g() -> Vec<i64> { let v = vec![1, 2, 3]; v }
 pub fn case_string_local_h() -> Vec<i64> { let v = vec![7; 3]; v }
 pub fn case_string_local_i() -> Vec<&'static str> { "a b  c".split_whitespace().collect() }
+pub struct SeedP { a: i64, b: String, c: bool }
+impl SeedP { fn take_ab(self) -> String { let Self { a, b, .. } = self; format!("{}{}", a, b) } }
+pub fn case_self_struct_pattern() -> String {
+    SeedP { a: 4, b: "x".to_string(), c: true }.take_ab()
+}
